@@ -79,12 +79,14 @@ func formTokenMatcher(delims []string) *regexp.Regexp {
 	// For example, if delims is default the exclusion expression is "[^%]|%[^}]".
 	// If tagRight is "TAG!RIGHT" then expression is
 	// [^T]|T[^A]|TA[^G]|TAG[^!]|TAG![^R]|TAG!R[^I]|TAG!RI[^G]|TAG!RIG[^H]|TAG!RIGH[^T]
-	exclusion := make([]string, 0, len(delims[3]))
-	for idx, val := range delims[3] {
-		exclusion = append(exclusion, "[^"+string(val)+"]")
+	tagRight := []rune(delims[3])
+	exclusion := make([]string, 0, len(tagRight))
+	for idx, val := range tagRight {
+		ex := "[^" + regexp.QuoteMeta(string(val)) + "]"
 		if idx > 0 {
-			exclusion[idx] = delims[3][0:idx] + exclusion[idx]
+			ex = regexp.QuoteMeta(string(tagRight[0:idx])) + ex
 		}
+		exclusion = append(exclusion, ex)
 	}
 
 	tokenMatcher := regexp.MustCompile(
